@@ -69,6 +69,8 @@ func diffStores(w *world.World, phase string, a, b map[string]map[string]string)
 				w.Violate("C18", fmt.Sprintf("missing-after-import:%s:%s", st, keyClass(k)), fmt.Sprintf("%s: store %s key %q exists on the original chain but not on the chain initialised from its export", phase, st, printable(k)), nil)
 			case !oka && okb:
 				w.Violate("C18", fmt.Sprintf("%s:extra-after-import:%s:%s", phase, st, keyClass(k)), fmt.Sprintf("%s: store %s key %q exists only on the re-initialised chain", phase, st, printable(k)), nil)
+			case va != vb && st == "order" && k == "Order/count/" && orderCountEq(va, vb):
+				// the order counter's getter reads a stored 0 as 1 (ids start at 1): 0 and 1 are the same observable state
 			case va != vb:
 				w.Violate("C18", fmt.Sprintf("%s:value-differs:%s:%s", phase, st, keyClass(k)), fmt.Sprintf("%s: store %s key %q differs between the original and the re-initialised chain", phase, st, printable(k)), nil)
 			}
@@ -315,4 +317,21 @@ func inflight(s *mon.State) bool {
 		}
 	}
 	return false
+}
+
+func orderCountEq(a, b string) bool {
+	dec := func(v string) uint64 {
+		if len(v) != 8 {
+			return ^uint64(0)
+		}
+		var n uint64
+		for i := 0; i < 8; i++ {
+			n = n<<8 | uint64(v[i])
+		}
+		if n == 0 {
+			n = 1
+		}
+		return n
+	}
+	return dec(a) == dec(b) && dec(a) != ^uint64(0)
 }
